@@ -27,12 +27,19 @@ CLAIM = {
  'design_ref': 'DESIGN.md section 6 C07',
 }
 
+# Round 2: every oracle evaluation is a "hold results" evaluation — a chunk of calls is made first and all result
+# OBJECTS are kept; only afterwards each is canonicalised and compared with the reference, its exact type is checked
+# (bytes, not bytearray; int, not bool) and results that are the same mutable object are reported. A failure that a
+# fresh single call does not show is recorded as {'op': 'hold', 'items': [the call, the calls after it]}.
 RULE = ('8/16-bit codes: every word, every implementation, every run. 32-bit codes: every (sign x exponent) combination x '
         'boundary mantissas + seeded random mantissas, plus a vectorised stratified sweep of code 68 (thorough: all 2^32 '
         'words). to68: every binade of the doubles x both signs x boundary + random mantissas. RP66V1: every word of the '
         '1/2-byte codes, (sign x exponent) x mantissas for the 4/8-byte codes, every UVARI 1- and 2-byte form, all IDENT '
         'lengths, structured + truncated + offset inputs for the compound codes. A case is non-trivial when it decodes '
-        'to a non-zero value or consumes a variable number of bytes; distinct by (code, word/bytes, path).')
+        'to a non-zero value or consumes a variable number of bytes; distinct by (code, word/bytes, path). '
+        'ReadBIT.float_to_bytes (IBM encoder): every representable binade x both signs x mantissas, against an exact '
+        'reference encoder and the Lean model. All results of a chunk (up to 8192 calls) are held and compared afterwards; '
+        'every *_len helper and reader also at non-zero indices inside buffers with a tail.')
 ASSUMPTIONS = ['LIS-79 Appendix B and RP66V1 Appendix B as read by us (harness/gen/c07_ref.py is the executable reading)',
                'VSINGL: the specification is the repository\'s cited vector 0C 44 00 80 -> 153 (DESIGN F9)',
                'to68 is exercised on finite doubles only (NaN/inf excluded)',
@@ -96,21 +103,60 @@ def _pool():
 
 
 # ------------------------------------------------------------------ canonical output of the implementation
+class _Exc:
+    """an exception captured while the results of a batch are being held"""
+    __slots__ = ('s',)
+
+    def __init__(self, e):
+        n = type(e).__name__
+        if isinstance(e, struct.error):
+            n = 'struct'
+        self.s = {'ExceptionRepCodeRead': 'err struct', 'struct': 'err struct', 'ExceptionRepCodeUnknown': 'err Unknown',
+                  'ExceptionRepCodeNoLength': 'err NoLength', 'ExceptionRepCode': 'err RepCode'}.get(n, 'err ' + n)
+
+
+def _raw(fn, *a):
+    """fn(*a) itself (NOT canonicalised: the caller keeps it and looks at it later) or the captured exception"""
+    try:
+        return fn(*a)
+    except Exception as e:
+        return _Exc(e)
+
+
+def _rstr(raw):
+    return raw.s if isinstance(raw, _Exc) else _vstr(raw)
+
+
 def _call(fn, *a):
     """canonical string of fn(*a) (float -> exact dyadic, int, bytes) or of the exception family"""
-    try:
-        v = fn(*a)
-    except OverflowError:
-        return 'err OverflowError'
-    except IndexError:
-        return 'err IndexError'
-    except struct.error:
-        return 'err struct'
-    except Exception as e:
-        n = type(e).__name__
-        return {'ExceptionRepCodeRead': 'err struct', 'ExceptionRepCodeUnknown': 'err Unknown',
-                'ExceptionRepCodeNoLength': 'err NoLength', 'ExceptionRepCode': 'err RepCode'}.get(n, 'err ' + n)
-    return _vstr(v)
+    return _rstr(_raw(fn, *a))
+
+
+def _immutable(v):
+    t = type(v)
+    if t in (int, float, bytes, str, bool, type(None)):
+        return True
+    return isinstance(v, tuple) and all(_immutable(x) for x in v)
+
+
+def _alias_report(raws):
+    """{index: detail} for results that are the very same object as an earlier result of the batch although they
+    are not immutable values (an encoder/decoder handing out a shared scratch buffer or object)"""
+    seen, out = {}, {}
+    for i, r in enumerate(raws):
+        if isinstance(r, _Exc) or _immutable(r):
+            continue
+        j = seen.setdefault(id(r), i)
+        if j != i:
+            out[i] = f'call #{i} returned the very same mutable {type(r).__name__} object as call #{j} of the batch'
+    return out
+
+
+def _type_bad(raw, want):
+    """documented result type (exactly: bytes, not bytearray; int, not bool)"""
+    if isinstance(raw, _Exc) or type(raw) is want:
+        return None
+    return f'result is a {type(raw).__name__}, documented type is {want.__name__}'
 
 
 def _vstr(v):
@@ -156,13 +202,16 @@ def _lis_paths(rc, u):
     return out
 
 
-def _lis_impl(rc, path, arg):
+def _lis_raw(rc, path, arg):
     M = _M
     if path == 'readBytes':
         bits = M['R'].LIS_BITS[rc]
-        return _call(M['rc'].readBytes, rc, arg.to_bytes(bits // 8, 'big'))
-    mod = M[path]
-    return _call(getattr(mod, 'from%d' % rc), arg)
+        return _raw(M['rc'].readBytes, rc, arg.to_bytes(bits // 8, 'big'))
+    return _raw(getattr(M[path], 'from%d' % rc), arg)
+
+
+def _lis_impl(rc, path, arg):
+    return _rstr(_lis_raw(rc, path, arg))
 
 
 def _lis_oracle(rc, u, path, arg, got, expected):
@@ -187,18 +236,26 @@ def _lis_oracle(rc, u, path, arg, got, expected):
 
 
 def _lis_chunk(job):
+    """two phases: every decoder result of the chunk is produced and KEPT, only afterwards each is looked at"""
     rc, words = job
-    res, fails, nontriv = [], [], 0
-    for u in words:
-        exp = _lis_expected(rc, u)
-        if exp not in ('f 0 0', 'i 0'):
-            nontriv += 1
-        for path, arg, line in _lis_paths(rc, u):
-            got = _lis_impl(rc, path, arg)
-            res.append((u, path, arg, line, got))
-            bad = _lis_oracle(rc, u, path, arg, got, exp)
-            if bad:
-                fails.append(({'op': 'lis', 'rc': rc, 'u': u, 'path': path, 'arg': arg}, bad[0], bad[1]))
+    R = _M['R']
+    items = [(u, path, arg, line) for u in words for path, arg, line in _lis_paths(rc, u)]
+    raws = [_lis_raw(rc, path, arg) for u, path, arg, line in items]
+    want_t = float if rc in R.LIS_FLOAT else int
+    res, fails, nontriv, exp_of = [], [], 0, {}
+    for (u, path, arg, line), raw in zip(items, raws):
+        if u not in exp_of:
+            exp_of[u] = _lis_expected(rc, u)
+            if exp_of[u] not in ('f 0 0', 'i 0'):
+                nontriv += 1
+        got = _rstr(raw)
+        res.append((u, path, arg, line, got))
+        bad = _lis_oracle(rc, u, path, arg, got, exp_of[u])
+        tb = _type_bad(raw, want_t)
+        if tb and not bad:
+            bad = (f'code {rc} via {path}({arg}): {tb}', None)
+        if bad:
+            fails.append(({'op': 'lis', 'rc': rc, 'u': u, 'path': path, 'arg': arg}, bad[0], bad[1]))
     return rc, res, fails, nontriv
 
 
@@ -326,35 +383,51 @@ def _canon68(w):
     return 1 <= F <= (1 << 22) or (E == 255 and F > (1 << 22))
 
 
-def _to68_chunk(xs):
+def _to68_chunk(xs, _fresh=False):
+    """two phases: all encoder results (words, writeBytes68 bytes, re-encodings) of the chunk are produced and kept,
+    then each is compared"""
     M = _M
-    res, fails = [], []
+    raws = []
     for x in xs:
-        ws = []
-        for name in ('p', 'c', 'cp'):
-            try:
-                w = M[name].to68(x)
-            except Exception as e:
-                w = 'err ' + type(e).__name__
-            ws.append(w)
-            bad = _to68_check(x, w) if not isinstance(w, str) else (f'{name}.to68({x.hex()}) raised {w}', None)
+        ws = [_raw(M[name].to68, x) for name in ('p', 'c', 'cp')]
+        w2 = [_raw(lambda w=w, n=n: M[n].to68(M[n].from68(w))) if type(w) is int and 0 <= w < (1 << 32) else None
+              for n, w in zip(('p', 'c', 'cp'), ws)]
+        raws.append((ws, w2, _raw(M['rc'].writeBytes68, x)))
+    alias = _alias_report([r[2] for r in raws])
+    res, fails, pending = [], [], []
+    for i, (x, (ws, w2s, wbr)) in enumerate(zip(xs, raws)):
+        for name, w, w2 in zip(('p', 'c', 'cp'), ws, w2s):
+            bad = (f'{name}.to68({x.hex()}) raised {w.s}', None) if isinstance(w, _Exc) else \
+                ((f'to68({x.hex()}): ' + _type_bad(w, int), None) if _type_bad(w, int) else _to68_check(x, w))
             if bad:
                 fails.append(({'op': 'to68', 'x': x.hex(), 'impl': name}, f'{name}: ' + bad[0], bad[1]))
-            if isinstance(w, int) and 0 <= w < (1 << 32):
-                # every encoder output is a canonical word and is reproduced by to68(from68(.))
-                w2 = M[name].to68(M[name].from68(w))
-                if not _canon68(w) or w2 != w:
-                    fails.append(({'op': 'to68', 'x': x.hex(), 'impl': name},
-                                  f'{name}: to68({x.hex()}) = 0x{w:08X} is {"" if _canon68(w) else "not "}canonical, '
-                                  f'to68(from68(.)) = 0x{w2:08X}', None))
-        if not (ws[0] == ws[1] == ws[2]):
+            if w2 is not None and (not _canon68(w) or w2 != w):
+                fails.append(({'op': 'to68', 'x': x.hex(), 'impl': name},
+                              f'{name}: to68({x.hex()}) = 0x{w:08X} is {"" if _canon68(w) else "not "}canonical, '
+                              f'to68(from68(.)) = {w2 if not isinstance(w2, _Exc) else w2.s}', None))
+        wl = [w if not isinstance(w, _Exc) else w.s for w in ws]
+        if not (wl[0] == wl[1] == wl[2]):
             fails.append(({'op': 'to68', 'x': x.hex(), 'impl': 'all'},
-                          f'to68({x.hex()}) differs: python {ws[0]} cython {ws[1]} c++ {ws[2]}', None))
-        try:
-            wb = M['rc'].writeBytes68(x).hex()
-        except Exception as e:
-            wb = 'err ' + type(e).__name__
-        res.append((x, ws, wb))
+                          f'to68({x.hex()}) differs: python {wl[0]} cython {wl[1]} c++ {wl[2]}', None))
+        # writeBytes68: a fresh immutable bytes object holding the big-endian word of RepCode.to68
+        wb = wbr.s if isinstance(wbr, _Exc) else bytes(wbr).hex()
+        bad = None
+        if not isinstance(wbr, _Exc):
+            cpw = ws[2]
+            bad = _type_bad(wbr, bytes) or alias.get(i)
+            if not bad and type(cpw) is int and 0 <= cpw < (1 << 32) and bytes(wbr) != cpw.to_bytes(4, 'big'):
+                bad = f'holds {wb}, RepCode.to68 gave {cpw:08x}'
+        if bad:
+            pending.append((i, bad))
+        res.append((x, wl, wb))
+    for i, bad in pending:
+        x = xs[i]
+        case = None
+        if not _fresh and not _to68_chunk([x], True)[1]:
+            follow = list(xs[i + 1:i + 4]) or list(xs[max(0, i - 1):i]) or [-x if x else 1.0]
+            case = {'op': 'hold', 'fn': 'to68', 'items': [v.hex() for v in [x] + follow]}
+        fails.append((case or {'op': 'to68', 'x': x.hex(), 'impl': 'writeBytes68'},
+                      f'writeBytes68({x.hex()}) looked at after {len(xs) - 1 - i} later call(s): {bad}', None))
     return res, fails
 
 
@@ -518,30 +591,49 @@ FLOAT_CODES = {'FSINGL': 4, 'FDOUBL': 8, 'ISINGL': 4, 'VSINGL': 4}
 INT_CODES = ('SSHORT', 'SNORM', 'SLONG', 'USHORT', 'UNORM', 'ULONG', 'STATUS')
 
 
-def _rp_impl(name, b, idx):
-    M = _M
-    ld = M['LD'](bytes(b))
+RP_TYPES = {'FSINGL': float, 'FDOUBL': float, 'ISINGL': float, 'VSINGL': float, 'SSHORT': int, 'SNORM': int, 'SLONG': int,
+            'USHORT': int, 'UNORM': int, 'ULONG': int, 'STATUS': int, 'UVARI': int, 'ORIGIN': int, 'IDENT': bytes,
+            'ASCII': bytes, 'UNITS': bytes}
+
+
+def _rp_raw(name, b, idx):
+    """(result object or captured exception, index after the call) — not looked into"""
+    ld = _M['LD'](bytes(b))
     ld.seek(idx)
-    fn = getattr(M['rp'], name)
-    try:
-        v = fn(ld)
-    except IndexError:
-        return 'err IndexError', None, None
-    except Exception as e:
-        return 'err ' + type(e).__name__, None, None
+    v = _raw(getattr(_M['rp'], name), ld)
+    return v, ld.index
+
+
+def _rp_canon(name, idx, raw):
+    """(canonical string, comparable value, bytes used, type complaint) of a held result"""
+    v, index = raw
+    if isinstance(v, _Exc):
+        return v.s, None, None, None
+    tb = None
     if name == 'DTIME':
         s = f'y={v.year} tz={v.tz} mo={v.month} d={v.day} h={v.hour} mi={v.minute} s={v.second} ms={v.millisecond}'
         val = (v.year, v.tz, v.month, v.day, v.hour, v.minute, v.second, v.millisecond)
+        if type(v).__name__ != 'DateTime' or any(type(x) is not int for x in val):
+            tb = f'result is a {type(v).__name__} with field types {[type(x).__name__ for x in val]}'
     elif name == 'OBNAME':
         s = f'O={v.O} C={v.C} I={bytes(v.I).hex() or "-"}'
         val = (v.O, v.C, bytes(v.I))
+        if not isinstance(v, tuple) or (type(v.O), type(v.C), type(v.I)) != (int, int, bytes):
+            tb = f'result is a {type(v).__name__} of ({type(v.O).__name__}, {type(v.C).__name__}, {type(v.I).__name__})'
     elif name == 'OBJREF':
         s = f'T={bytes(v.T).hex() or "-"} O={v.N.O} C={v.N.C} I={bytes(v.N.I).hex() or "-"}'
         val = (bytes(v.T), (v.N.O, v.N.C, bytes(v.N.I)))
+        if not isinstance(v, tuple) or (type(v.T), type(v.N.O), type(v.N.C), type(v.N.I)) != (bytes, int, int, bytes):
+            tb = f'result is a {type(v).__name__} with field types {[type(x).__name__ for x in (v.T, v.N.O, v.N.C, v.N.I)]}'
     else:
         s = _vstr(v)
         val = v
-    return f'{s} @{ld.index}', val, ld.index - idx
+        tb = _type_bad(v, RP_TYPES[name])
+    return f'{s} @{index}', val, index - idx, tb
+
+
+def _rp_impl(name, b, idx):
+    return _rp_canon(name, idx, _rp_raw(name, b, idx))[:3]
 
 
 def _rp_reference(name, b, idx):
@@ -616,30 +708,69 @@ def _len_oracle(name, b, idx, got):
     return None
 
 
-def _rp_chunk(cases):
-    res, fails = [], []
+def _rp_chunk(cases, _fresh=False):
+    """two phases: every reader / helper / IBM result of the chunk is produced and KEPT (the objects themselves),
+    only afterwards each is canonicalised and compared with the reference"""
+    M, R = _M, _M['R']
+    raws = []
     for kind, name, b, idx in cases:
         if kind == 'rp':
-            got, val, used = _rp_impl(name, b, idx)
+            raws.append(_rp_raw(name, b, idx))
+        elif kind == 'len':
+            raws.append(_raw(getattr(M['rp'], name + '_len'), bytes(b), idx))
+        elif kind == 'ibm':
+            raws.append(_raw(M['bit'].bytes_to_float, b))
+        else:   # f2b: the IBM encoder; b is the 8-byte big-endian double
+            raws.append(_raw(M['bit'].float_to_bytes, struct.unpack('>d', b)[0]))
+    alias = _alias_report([r[0] if k[0] == 'rp' else r for k, r in zip(cases, raws)])
+    res, fails, pending = [], [], []
+    for i, ((kind, name, b, idx), raw) in enumerate(zip(cases, raws)):
+        tb = None
+        if kind == 'rp':
+            got, val, used, tb = _rp_canon(name, idx, raw)
             bad = _rp_oracle(name, b, idx, got, val, used)
             line = f'rp {name} {b.hex() or "-"} {idx}'
         elif kind == 'len':
-            got = _len_impl(name, b, idx)
+            got = _rstr(raw).replace('i ', '')
             bad = _len_oracle(name, b, idx, got)
+            tb = _type_bad(raw, int)
             line = f'len {name} {b.hex() or "-"} {idx}'
-        else:   # ibm
-            got = _call(_M['bit'].bytes_to_float, b)
+        elif kind == 'ibm':
+            got = _rstr(raw)
             got = 'err struct' if got == 'err ValueError' else got
-            R = _M['R']
             bad = None
             if len(b) >= 4 and got != R.ref_str(R.ibm_ref(b)):
                 bad = f'bytes_to_float({b.hex()}) = {got}, IBM format gives {R.ref_str(R.ibm_ref(b))}'
             if len(b) < 4 and got != 'err struct':
                 bad = f'bytes_to_float on {len(b)} bytes returned {got}'
+            tb = _type_bad(raw, float)
             line = f'ibm {b.hex() or "-"}'
+        else:
+            x = struct.unpack('>d', b)[0]
+            got = raw.s if isinstance(raw, _Exc) else bytes(raw).hex()
+            want = R.ibm_encode_ref(x)
+            bad = None
+            if want is not None and got != want.hex():
+                bad = f'float_to_bytes({x.hex()}) holds {got}, IBM format gives {want.hex()}'
+            tb = _type_bad(raw, bytes)
+            m, e = R.dy_of_float(x)
+            line = f'f2b {m} {e}'
+        bad = bad or tb or alias.get(i)
         res.append((kind, name, b, idx, line, got))
         if bad:
-            fails.append(({'op': kind, 'name': name, 'hex': b.hex(), 'idx': idx}, bad, None))
+            pending.append((i, bad))
+    # only now (all held results have been looked at) decide, by a fresh single call, whether a failure needs the
+    # later calls; such a case is recorded with the calls that followed it (at least one other call)
+    for i, bad in pending:
+        kind, name, b, idx = cases[i]
+        case = None
+        if not _fresh and not _rp_chunk([cases[i]], True)[1]:
+            same = lambda c: c[0] == kind and c[1] == name and c is not cases[i]
+            follow = [c for c in cases[i + 1:] if same(c)][:3] or [c for c in cases[:i] if same(c)][-1:] \
+                or [(kind, name, bytes(x ^ 0xFF for x in b), idx)]
+            case = {'op': 'hold', 'fn': 'rp', 'items': [(k, n, bb.hex(), ii) for k, n, bb, ii in [cases[i]] + follow]}
+            bad += f' (looked at after {len(cases) - 1 - i} later call(s); a single fresh call is right)'
+        fails.append((case or {'op': kind, 'name': name, 'hex': b.hex(), 'idx': idx}, bad, None))
     return res, fails
 
 
@@ -777,6 +908,35 @@ def _rp_cases(ctx):
         add('DTIME', _rb(rng, 8), _rb(rng, rng.choice([0, 1])))
     for n in range(8):
         cs.append(('rp', 'DTIME', _rb(rng, n), 0))
+    # the IBM encoder ReadBIT.float_to_bytes: every binade it can represent (and beyond) x both signs x mantissas,
+    # short runs of neighbouring values, zeros, subnormals, extremes
+    bm52 = [0, 1, (1 << 52) - 1, 1 << 51, (1 << 28) - 1, 1 << 28, (1 << 29) + 1, 0x5555555555555, ((1 << 24) - 1) << 28]
+    kf = ctx.n(6, 60)
+    for e in list(range(1023 - 280, 1023 + 270)) + [0, 1, 2, 2046, 1023 - 400, 1023 + 400]:
+        for m in bm52 + [rng.getrandbits(52) for _ in range(kf)]:
+            for sgn in (0, 1):
+                cs.append(('f2b', '', ((sgn << 63) | (e << 52) | m).to_bytes(8, 'big'), 0))
+    for x in (0.0, -0.0, 1.0, -1.0, 153.0, -118.625, 0.1, 1 / 3, 16.0, 15.999999, 5e-324, 1.7e308, 7.2e75, 5.4e-79):
+        cs.append(('f2b', '', struct.pack('>d', x), 0))
+    # (2) helpers and readers at non-zero indices inside buffers longer than needed: every helper, structured values
+    for _ in range(ctx.n(2500, 40000)):
+        p = _rb(rng, rng.randrange(1, 10))
+        t = _rb(rng, rng.randrange(0, 6))
+        v = rng.choice([rng.randrange(0, 128), rng.randrange(128, 0x4000), rng.randrange(0x4000, 1 << 30)])
+        uv = _uvari_enc(v, rng.choice([None, None, 2, 4]) if v < 0x4000 and rng.random() < 0.3 and v < 64 else None)
+        n = rng.choice([0, 1, 3, 17, rng.randrange(0, 256)])
+        ident = bytes([n]) + _rb(rng, n)
+        obn = uv + bytes([rng.getrandbits(8)]) + ident
+        for name, body in (('UVARI', uv), ('ORIGIN', uv), ('IDENT', ident), ('OBNAME', obn)):
+            cs.append(('len', name, p + body + t, len(p)))
+            cs.append(('rp', name, p + body + t, len(p)))
+            if rng.random() < 0.25:       # the helper must not look before the index nor depend on the tail
+                cs.append(('len', name, _rb(rng, len(p)) + body + _rb(rng, len(t) + 2), len(p)))
+                cs.append(('len', name, p + body[:rng.randrange(0, len(body))], len(p)))
+        for name, body in (('UNITS', ident), ('ASCII', uv[:0] + _uvari_enc(n) + ident[1:]), ('OBJREF', ident + obn),
+                           ('DTIME', _rb(rng, 8)), ('FSINGL', _rb(rng, 4)), ('FDOUBL', _rb(rng, 8)), ('SLONG', _rb(rng, 4))):
+            if rng.random() < 0.3:
+                cs.append(('rp', name, p + body + t, len(p)))
     # truncated fixed-length codes
     for name, n in [('FSINGL', 4), ('FDOUBL', 8), ('ISINGL', 4), ('VSINGL', 4), ('SLONG', 4), ('ULONG', 4), ('SNORM', 2),
                     ('UNORM', 2), ('SSHORT', 1), ('USHORT', 1)]:
@@ -796,7 +956,7 @@ def _run_rp(ctx, pool):
             lines.append(line); meta.append((kind, name, b, idx, got))
     model = ctx.lean(lines)
     for (kind, name, b, idx, got), m in zip(meta, model):
-        stream = {'rp': 'rp66.' + name, 'len': 'rp66.len.' + name, 'ibm': 'bit.bytes_to_float'}[kind]
+        stream = {'rp': 'rp66.' + name, 'len': 'rp66.len.' + name, 'ibm': 'bit.bytes_to_float', 'f2b': 'bit.float_to_bytes'}[kind]
         ctx.corr(stream, {'op': kind, 'name': name, 'hex': b.hex(), 'idx': idx}, got, m)
         if not got.startswith('err') and len(b) <= 12:
             ctx.nontriv((stream, b, idx))
@@ -858,10 +1018,17 @@ def search(ctx):
 def replay(ctx, rec):
     case = rec.get('case') or {}
     op = case.get('op')
-    if op not in ('lis', 'to68', 'rt68', 'rp', 'len', 'ibm', 'fixedlen'):
+    if op not in ('lis', 'to68', 'rt68', 'rp', 'len', 'ibm', 'f2b', 'hold', 'fixedlen'):
         return True, 'nothing to replay (no concrete failing input was recorded)'
     M = _setup(ctx)
     R = M['R']
+    if op == 'hold':
+        # a failure that needs the later calls: re-run the recorded short sequence, holding all results
+        if case['fn'] == 'to68':
+            res, fails = _to68_chunk([float.fromhex(h) for h in case['items']])
+        else:
+            res, fails = _rp_chunk([(k, n, bytes.fromhex(h), i) for k, n, h, i in case['items']])
+        return (not fails), (fails[0][1] if fails else f'{len(case["items"])} held results are all right')
     if op == 'lis':
         rc, u, path, arg = case['rc'], case['u'], case['path'], case['arg']
         if rc == 68 and path in ('p', 'c', 'cp'):
@@ -873,6 +1040,9 @@ def replay(ctx, rec):
         return (bad is None), (bad[0] if bad else f'got {got} as the standard says')
     if op == 'to68':
         x = float.fromhex(case['x'])
+        res, fails = _to68_chunk([x])
+        if fails:
+            return False, fails[0][1]
         ws = {n: M[n].to68(x) for n in ('p', 'c', 'cp')}
         msgs = [f'{n}: ' + b[0] for n, w in ws.items() for b in [_to68_check(x, w)] if b]
         for n, w in ws.items():
